@@ -136,6 +136,11 @@ func (db *SingleBucketBackend) getBucketWithFilePrefixLocked(bucket string, pref
 		return gofakes3.NewObjectList(), nil
 	}
 
+	if prefixPath != "" && objectInTheWay(db.fs, ".", prefixPath) {
+		// The prefix leads through an object, not a directory: no key matches it
+		return gofakes3.NewObjectList(), nil
+	}
+
 	dirEntries, err := afero.ReadDir(db.fs, filepath.FromSlash(prefixPath))
 	if os.IsNotExist(err) && prefixPath != "" {
 		// No directory for the prefix means no key matches it:
